@@ -1,7 +1,7 @@
 (* C06 -- every valid DSDL input yields generated code that builds cleanly on its own: the part that is logic.
    Statements only; proofs in Gen/ClosureThm.v (general) and Gen/ClosureInstThm.v (regenerated configuration).
    "Compiles without diagnostics" itself has no Coq model here (PARTIAL, see tools/checks/c06.py MANIFEST). *)
-From Verif Require Import Closure ClosureThm ClosureInst ClosureInstThm.
+From Verif Require Import Closure ClosureThm ClosureInst ClosureInstThm StropThmInst.
 Open Scope N_scope.
 
 (* includes_closed: for ALL type sets closed under dependencies, every #include of a type header is an output of generating
@@ -10,7 +10,8 @@ Open Scope N_scope.
 Theorem C06_includes_closed : forall (l : lang_cfg) q omit ts t i,
   lc_inc_short_idt l = lc_out_short_idt l -> lc_inc_ns_idt l = lc_out_ns_idt l ->
   closed q ts = true -> In t ts -> In i (include_list l q omit t) ->
-  In i (map (punct l) (outputs l ts)) \/ (omit = false /\ In i (map (punct l) (support_outputs l))) \/ In i (lc_std l (direct q t)).
+  In i (map (punct l) (outputs l ts)) \/ (omit = false /\ In i (map (punct l) (support_outputs l))) \/ In i (lc_std l (direct q t))
+  \/ In i (lc_tmpl_inc l omit).
 Proof. exact includes_closed_gen. Qed.
 Print Assumptions C06_includes_closed.
 
@@ -18,7 +19,7 @@ Print Assumptions C06_includes_closed.
 Theorem C06_includes_closed_c : forall q omit ts t i,
   closed q ts = true -> In t ts -> In i (include_list c_cfg q omit t) ->
   In i (map (punct c_cfg) (outputs c_cfg ts)) \/ (omit = false /\ In i (map (punct c_cfg) (support_outputs c_cfg)))
-  \/ In i (lc_std c_cfg (direct q t)).
+  \/ In i (lc_std c_cfg (direct q t)) \/ In i (lit_includes c_tmpl_includes omit).
 Proof. exact includes_closed_c. Qed.
 Print Assumptions C06_includes_closed_c.
 
@@ -26,7 +27,7 @@ Theorem C06_includes_closed_cpp : forall std hv q omit ts t i,
   closed q ts = true -> In t ts -> In i (include_list (cpp_cfg std hv) q omit t) ->
   In i (map (punct (cpp_cfg std hv)) (outputs (cpp_cfg std hv) ts))
   \/ (omit = false /\ In i (map (punct (cpp_cfg std hv)) (support_outputs (cpp_cfg std hv))))
-  \/ In i (lc_std (cpp_cfg std hv) (direct q t)).
+  \/ In i (lc_std (cpp_cfg std hv) (direct q t)) \/ In i (lit_includes cpp_tmpl_includes omit).
 Proof. exact includes_closed_cpp. Qed.
 Print Assumptions C06_includes_closed_cpp.
 
@@ -92,26 +93,92 @@ Theorem C06_namespace_braces_balanced : forall ns,
 Proof. exact namespace_braces_balanced. Qed.
 Print Assumptions C06_namespace_braces_balanced.
 
-(* std_includes_cover (C): with serialization support, for every combination of dependency flags and type features, every
-   standard name the C templates mention (regenerated scan) is declared by a header that get_includes (regenerated table)
-   or the support header (regenerated include list) brings in *)
-Theorem C06_std_includes_cover_c_partial : forall e,
-  c_pod_trigger e = false ->
-  c_covered c_get_includes c_support_includes c_tmpl_std_names c_std_types e = true.
-Proof. exact std_includes_cover_c. Qed.
-Print Assumptions C06_std_includes_cover_c_partial.
+(* generation completes (stropping part): on every non-empty token and every legal id type the stropper returns a token -- the
+   model's sid_of never takes its dead arm; C09's totality theorem, imported.  All id types the sites pass are legal. *)
+Theorem C06_stropping_total : forall l (ty s : str), s <> [] -> str_eqb (lower ty) ty_all = false -> strop_lang l ty s = Ok (sid_of l ty s).
+Proof. exact sid_of_ok. Qed.
+Print Assumptions C06_stropping_total.
 
-(* ... and it is FALSE with --omit-serialization-support: known finding F-C06-C-POD *)
-Theorem C06_std_includes_cover_c_refuted : exists e,
-  c_covered c_get_includes c_support_includes c_tmpl_std_names c_std_types e = false.
-Proof. exact std_includes_cover_c_refuted. Qed.
-Print Assumptions C06_std_includes_cover_c_refuted.
+Theorem C06_id_types_legal :
+  forallb (fun ty => negb (str_eqb (lower ty) ty_all))
+          [mp_short_idtype; mp_ns_idtype; ns_dir_idtype; c_default_idtype; cpp_default_idtype; py_default_idtype; ty_macro] = true.
+Proof. exact id_types_legal. Qed.
+Print Assumptions C06_id_types_legal.
+
+(* Python: "any" and "path" strop every DSDL identifier alike (discharges the hypothesis of C06_py_import_names_are_dirs) *)
+Theorem C06_py_any_path_agree : forall c, valid_ident c = true -> strop_py py_default_idtype c = strop_py ns_dir_idtype c.
+Proof. exact py_any_path. Qed.
+Print Assumptions C06_py_any_path_agree.
+
+Theorem C06_py_import_names_are_dirs_py : forall ns, forallb valid_ident ns = true ->
+  map (lc_sid py_cfg (lc_default_idt py_cfg)) ns = ns_dir (lc_sid py_cfg) (lc_dir_idt py_cfg) ns.
+Proof. exact py_import_names_are_dirs_py. Qed.
+Print Assumptions C06_py_import_names_are_dirs_py.
+
+(* Namespace.j2: the module named by `from <full_reference_name> import ...` is the generated file of that type *)
+Theorem C06_py_init_imports_closed : forall ts d,
+  In d ts -> forallb valid_ident (ti_ns (td_id d)) = true -> valid_ident (versioned (td_id d)) = true ->
+  str_eqb (stem (short_ref (lc_sid py_cfg) (lc_stropping py_cfg) (lc_default_idt py_cfg) (td_id d)))
+          (short_ref (lc_sid py_cfg) (lc_stropping py_cfg) (lc_default_idt py_cfg) (td_id d)) = true ->
+  In (posix (removelast (init_import_module py_cfg (td_id d)) ++ [last (init_import_module py_cfg (td_id d)) [] ++ lc_ext py_cfg]))
+     (outputs py_cfg ts).
+Proof. exact py_init_imports_closed. Qed.
+Print Assumptions C06_py_init_imports_closed.
+
+(* base.j2's literal imports: third-party / interpreter modules, or a generated support module when support is not omitted ... *)
+Theorem C06_py_literal_imports_closed :
+  forallb (fun m => str_in m py_external || str_in (module_file py_cfg m) (generated_support py_cfg false)) py_literal_imports = true.
+Proof. exact py_literal_imports_closed. Qed.
+Print Assumptions C06_py_literal_imports_closed.
+
+(* ... and with --omit-serialization-support closure holds exactly when the template imports no support module (F-C06-PY-POD otherwise) *)
+Theorem C06_py_literal_imports_omit :
+  forallb (fun m => str_in m py_external || str_in (module_file py_cfg m) (generated_support py_cfg true)) py_literal_imports
+  = forallb (fun m => str_in m py_external) py_literal_imports.
+Proof. exact py_literal_imports_omit. Qed.
+Print Assumptions C06_py_literal_imports_omit.
+
+(* std_includes_cover (C).  Tables regenerated: get_includes, the support header's includes WITH their option guard, base.j2's literal
+   includes with their omit guard, every standard name in rendered position of the templates with its omit guard (universe: what the
+   installed gcc's C11 headers declare), the names the filters emit, header -> names (asked of gcc).  Hand-written: the feature guards
+   of the filter-emitted names.  With serialization support: covered for all features ... *)
+Theorem C06_std_includes_cover_c : forall e, f_pod e = false -> c_float_trigger e = false -> c_cov e = true.
+Proof. exact std_includes_cover_c. Qed.
+Print Assumptions C06_std_includes_cover_c.
+
+(* ... in particular for the feature record COMPUTED from a type definition (flags = DependencyBuilder.direct) *)
+Theorem C06_std_includes_cover_c_tdef : forall q omit_float empty t,
+  c_float_trigger (feat_of q false omit_float empty t) = false -> c_cov (feat_of q false omit_float empty t) = true.
+Proof. exact std_includes_cover_c_tdef. Qed.
+Print Assumptions C06_std_includes_cover_c_tdef.
+
+(* ... and without the support header: covered for all features iff the regenerated tables say so (the check compares this boolean
+   with the compile probe of known finding F-C06-C-POD: both states of the tree are covered) *)
+Theorem C06_std_includes_cover_c_pod_iff :
+  c_pod_selfsufficient = true <-> (forall e, f_pod e = true -> c_float_trigger e = false -> c_cov e = true).
+Proof. exact std_includes_cover_c_pod_iff. Qed.
+Print Assumptions C06_std_includes_cover_c_pod_iff.
+
+(* the statement depends on get_includes: with an empty table size_t / NULL are not declared for a POD type *)
+Theorem C06_get_includes_needed :
+  c_covered [] c_support_includes c_tmpl_includes c_tmpl_std_names c_filter_names c_declares c_std_types
+            {| f_int := true; f_float := false; f_vla := true; f_arr := false; f_boolarr := false; f_bool := true; f_primarr := false;
+               f_union := false; f_pod := true; f_empty := false; f_boolvla := false; f_any_union := false; f_omit_float := false |} = false.
+Proof. exact c_get_includes_needed. Qed.
+Print Assumptions C06_get_includes_needed.
 
 (* non-vacuity *)
-Example C06_example_closed : closed true [td_None; td_user] = true.
+Example C06_example_closed : closed q_union_live [td_None; td_user] = true.
 Proof. exact example_closed. Qed.
 Print Assumptions C06_example_closed.
 
 Example C06_example_import_py : py_imports py_cfg td_user = [s_ [99;108;97;115;115;95]].
 Proof. exact example_import_py. Qed.
 Print Assumptions C06_example_import_py.
+
+Example C06_example_init_import_hyps :
+  forallb valid_ident (ti_ns (td_id td_None)) = true /\ valid_ident (versioned (td_id td_None)) = true
+  /\ str_eqb (stem (short_ref (lc_sid py_cfg) (lc_stropping py_cfg) (lc_default_idt py_cfg) (td_id td_None)))
+             (short_ref (lc_sid py_cfg) (lc_stropping py_cfg) (lc_default_idt py_cfg) (td_id td_None)) = true.
+Proof. exact example_init_import_hyps. Qed.
+Print Assumptions C06_example_init_import_hyps.
